@@ -765,3 +765,331 @@ func ruleL36(p *Prog, r *Report) {
 	r.Decide(true, R, "digest-comparisons", "-", "ordered / equality comparisons of digests in library code: "+itoa(nCmp)+"; no arithmetic on a digest", "")
 	r.Floor(R, "digest comparisons", 10, nCmp)
 }
+
+// K5 the last digest level has no digest: a collision group does not fail for want of one.
+//
+// A collision group one level below `level` asks `digester.Digest(level+1)`. The guard in front of it rejects
+// `level+1 > Levels()` only, so `level+1 == Levels()` - the list of fully colliding keys at the bottom - is a legal
+// state, and for it the Digester contract answers with an error (there is no digest at that level; the value is not
+// used by a list without digests). Obligation per `Digest` call in a method of a collision group: if its error result
+// is tested and the non-nil edge leads to an error return, the guard in front of the call must reject equality too
+// (`>=`); with the `>` guard the error must be ignored, as all sites do today. A site that starts to return it makes
+// every operation through that site fail on maps whose keys collide on all levels.
+func ruleK5(p *Prog, r *Report) {
+	const R = "K5"
+	n := 0
+	for _, top := range p.TopFuncs() {
+		if p.IsTestFile(top.Pos()) {
+			continue
+		}
+		eachInstr(top, func(in ssa.Instruction) {
+			c, ok := in.(*ssa.Call)
+			if !ok || !c.Call.IsInvoke() || c.Call.Method.Name() != "Digest" || len(c.Call.Args) != 1 {
+				return
+			}
+			if _, isConst := cInt(c.Call.Args[0]); isConst {
+				return // the first level always has a digest: its error is a real failure
+			}
+			if typeName(c.Call.Value.Type()) != "Digester" {
+				return
+			}
+			n++
+			cons := "bottom-level-tolerated:" + p.Name(top)
+			lvl := c.Call.Args[0]
+			// is equality with Levels() rejected before the call?
+			strict := false
+			for _, b := range top.Blocks {
+				ifi, ok := b.Instrs[len(b.Instrs)-1].(*ssa.If)
+				if !ok {
+					continue
+				}
+				bo, ok := ifi.Cond.(*ssa.BinOp)
+				if !ok {
+					continue
+				}
+				isLevels := func(v ssa.Value) bool {
+					cc, ok := canon(v).(*ssa.Call)
+					return ok && cc.Call.IsInvoke() && cc.Call.Method.Name() == "Levels"
+				}
+				isLvl := func(v ssa.Value) bool {
+					if v == lvl || sameValue(canonConv(v), canonConv(lvl)) {
+						return true
+					}
+					// `level + 1` written twice (no common subexpressions in SSA)
+					a, ok1 := canonConv(v).(*ssa.BinOp)
+					b2, ok2 := canonConv(lvl).(*ssa.BinOp)
+					if ok1 && ok2 && a.Op == token.ADD && b2.Op == token.ADD && canon(a.X) == canon(b2.X) {
+						k1, c1 := cInt(a.Y)
+						k2, c2 := cInt(b2.Y)
+						return c1 && c2 && k1 == k2
+					}
+					return false
+				}
+				switch {
+				case bo.Op == token.GEQ && isLvl(bo.X) && isLevels(bo.Y) && edgeDominates(b, 1, in.Block()),
+					bo.Op == token.LSS && isLvl(bo.X) && isLevels(bo.Y) && edgeDominates(b, 0, in.Block()),
+					bo.Op == token.LEQ && isLevels(bo.X) && isLvl(bo.Y) && edgeDominates(b, 1, in.Block()),
+					bo.Op == token.GTR && isLevels(bo.X) && isLvl(bo.Y) && edgeDominates(b, 0, in.Block()):
+					strict = true
+				case bo.Op == token.EQL && ((isLvl(bo.X) && isLevels(bo.Y)) || (isLevels(bo.X) && isLvl(bo.Y))) && edgeDominates(b, 1, in.Block()),
+					bo.Op == token.NEQ && ((isLvl(bo.X) && isLevels(bo.Y)) || (isLevels(bo.X) && isLvl(bo.Y))) && edgeDominates(b, 0, in.Block()):
+					strict = true // the bottom level took another branch
+				}
+			}
+			var errV ssa.Value
+			for _, ref := range *c.Referrers() {
+				if ex, ok := ref.(*ssa.Extract); ok && ex.Index == 1 {
+					errV = ex
+				}
+			}
+			returned := false
+			if errV != nil {
+				for _, b := range top.Blocks {
+					ifi, ok := b.Instrs[len(b.Instrs)-1].(*ssa.If)
+					if !ok {
+						continue
+					}
+					v, nn, ok := errTestOf(ifi)
+					if !ok || !sameValue(v, errV) {
+						continue
+					}
+					reachFrom(top, b.Succs[nn].Instrs[0], nil, func(z ssa.Instruction) bool {
+						if ret, ok := z.(*ssa.Return); ok {
+							if cl, _ := classifyReturn(ret); cl == retError {
+								returned = true
+							}
+							return true
+						}
+						return false
+					})
+					if ret, ok := b.Succs[nn].Instrs[0].(*ssa.Return); ok {
+						if cl, _ := classifyReturn(ret); cl == retError {
+							returned = true
+						}
+					}
+				}
+			}
+			r.Decide(!returned || strict, R, cons, p.InstrPos(in), "the digest error of the bottom level is not turned into a failure (or equality with Levels() is rejected before)", "the error of digester.Digest(level) is returned although the guard in front admits level == Levels(), the bottom list of fully colliding keys, for which the digester has no digest by contract: every operation through this site fails on a map whose keys collide on all levels")
+		})
+	}
+	r.Floor(R, "digest requests at a variable level", 1, n)
+}
+
+// E9 what a callback returned next to its error is looked at only after the error.
+//
+// The element providers of the batch constructors (and every other caller-supplied function or interface method that
+// returns `(value, error)`) report failure as `(nil, err)`. A nil test of the value that comes before the error test
+// takes a failure for "no more elements" and the constructor returns a shorter container without an error.
+// Obligation per call of a func-typed value or interface method in library code whose error result is tested: every
+// branch on `value == nil` of a value result of the same call lies on the err == nil edge of that test.
+func ruleE9(p *Prog, r *Report) {
+	const R = "E9"
+	n := 0
+	for _, top := range p.TopFuncs() {
+		if p.IsTestFile(top.Pos()) || isDiagnosticFile(p.Fset.Position(top.Pos()).Filename) {
+			continue
+		}
+		eachInstrDeep(top, func(fn *ssa.Function, in ssa.Instruction) {
+			c, ok := in.(*ssa.Call)
+			if !ok {
+				return
+			}
+			if c.Call.StaticCallee() != nil {
+				return
+			}
+			if _, isB := c.Call.Value.(*ssa.Builtin); isB {
+				return
+			}
+			tup, ok := c.Type().(*types.Tuple)
+			if !ok || tup.Len() < 2 || !isErrorType(tup.At(tup.Len()-1).Type()) {
+				return
+			}
+			var errV ssa.Value
+			var vals []*ssa.Extract
+			for _, ref := range *c.Referrers() {
+				if ex, ok := ref.(*ssa.Extract); ok {
+					if ex.Index == tup.Len()-1 {
+						errV = ex
+					} else {
+						vals = append(vals, ex)
+					}
+				}
+			}
+			if errV == nil || len(vals) == 0 {
+				return
+			}
+			for _, v := range vals {
+				for _, blk := range fn.Blocks {
+					ifi, ok := blk.Instrs[len(blk.Instrs)-1].(*ssa.If)
+					if !ok {
+						continue
+					}
+					x, _, ok := nilTestOf(ifi)
+					if !ok || !(x == ssa.Value(v) || sameValue(x, v)) {
+						continue
+					}
+					n++
+					r.Decide(knownNil(errV, blk), R, "value-after-error:"+p.Name(fn), p.InstrPos(ifi), "the nil test of the callback's value lies on the err == nil edge of its error test", "a value returned by a caller-supplied function is tested for nil before the error it was returned with: a failure reported as (nil, err) is taken for 'nothing more to do' and the error is lost - a batch build returns a shorter container and no error")
+				}
+			}
+		})
+	}
+	r.Floor(R, "nil tests of callback values", 2, n)
+}
+
+// D5 a constructor that is given a seed returns a map that carries it.
+//
+// The copy constructor receives the source map's seed; the digests of the streamed keys were computed with it and
+// every later lookup derives digests from the seed stored in the root's extra data. Obligation for every non-test
+// function with a `seed uint64` parameter that returns a map handle: every success return passes through a store of
+// that parameter into the Seed field of the map's extra data (a path that returns a map built some other way - a
+// fresh NewMap for an empty stream - silently swaps the seed).
+func ruleD5(p *Prog, r *Report) {
+	const R = "D5"
+	n := 0
+	for _, top := range p.TopFuncs() {
+		if p.IsTestFile(top.Pos()) || len(top.Blocks) == 0 {
+			continue
+		}
+		var seed *ssa.Parameter
+		for _, q := range top.Params {
+			if bt, ok := q.Type().Underlying().(*types.Basic); ok && bt.Kind() == types.Uint64 && q.Name() == "seed" {
+				seed = q
+			}
+		}
+		if seed == nil {
+			continue
+		}
+		res := top.Signature.Results()
+		if res.Len() == 0 || typeName(res.At(0).Type()) != "OrderedMap" {
+			continue
+		}
+		n++
+		isSeedStore := func(z ssa.Instruction) bool {
+			st, ok := z.(*ssa.Store)
+			if !ok || canonConv(st.Val) != ssa.Value(seed) {
+				return false
+			}
+			fa, ok := st.Addr.(*ssa.FieldAddr)
+			if !ok {
+				return false
+			}
+			_, fn := structFieldName(fa.X.Type(), fa.Field)
+			return fn == "Seed"
+		}
+		bad := successReturnAvoiding(top, nil, isSeedStore)
+		pos := p.Pos(top.Pos())
+		if bad != nil {
+			pos = p.InstrPos(bad)
+		}
+		r.Decide(bad == nil, R, "given-seed-kept:"+p.Name(top), pos, "every success return passes the store of the seed parameter into the extra data", "a success return is reachable without storing the given seed in the map's extra data: the map handed back carries another seed than the one its keys were digested with (or than its source), so copies stop being equivalent to their source")
+	}
+	r.Floor(R, "map constructors that are given a seed", 1, n)
+}
+
+// D6 the sorted key list of the deterministic commit is not reordered before it is applied.
+//
+// FastCommit writes registers in the order of the list sortedOwnedDeltaKeys() returns (ascending owner, index).
+// Obligation: in a function that receives that list from the collector, the list - under any name, slices share their
+// backing array - is never handed to a routine of package sort / slices and no element of it is stored to; a "schedule
+// the big slabs first" sort of an alias reorders the register writes too, and the order then depends on the worker
+// count.
+func ruleD6(p *Prog, r *Report) {
+	const R = "D6"
+	n := 0
+	for _, top := range p.TopFuncs() {
+		if p.IsTestFile(top.Pos()) {
+			continue
+		}
+		if ok, _ := relaxedByContract(p, top); ok {
+			continue
+		}
+		eachInstr(top, func(in ssa.Instruction) {
+			c, ok := in.(*ssa.Call)
+			if !ok {
+				return
+			}
+			g := c.Call.StaticCallee()
+			if g == nil || recvName(g) != storageT || !isSlabIDSlice(c.Type()) || g == top {
+				return
+			}
+			// the collector sorts what it returns
+			sorts := false
+			eachInstrDeep(g, func(_ *ssa.Function, y ssa.Instruction) {
+				if cc, ok := y.(*ssa.Call); ok {
+					switch pkgPathOfCallee(cc.Call.StaticCallee()) {
+					case "sort", "slices":
+						sorts = true
+					}
+				}
+			})
+			if !sorts {
+				return
+			}
+			n++
+			cons := "sorted-keys-stay-sorted:" + p.Name(top)
+			var bad ssa.Instruction
+			isK := func(v ssa.Value) bool {
+				v = canon(v)
+				for depth := 0; depth < 4; depth++ {
+					if v == ssa.Value(c) {
+						return true
+					}
+					if sl, ok := v.(*ssa.Slice); ok {
+						v = canon(sl.X)
+						continue
+					}
+					break
+				}
+				return false
+			}
+			eachInstrDeep(top, func(fn *ssa.Function, y ssa.Instruction) {
+				if bad != nil {
+					return
+				}
+				switch x := y.(type) {
+				case *ssa.Call:
+					if pth := pkgPathOfCallee(x.Call.StaticCallee()); pth != "sort" && pth != "slices" {
+						return
+					}
+					for _, a := range x.Call.Args {
+						if mi, ok := a.(*ssa.MakeInterface); ok {
+							a = mi.X
+						}
+						if isK(a) {
+							bad = y
+						}
+					}
+				case *ssa.Store:
+					if ia, ok := x.Addr.(*ssa.IndexAddr); ok && isK(ia.X) {
+						bad = y
+					}
+				}
+			})
+			r.Decide(bad == nil, R, cons, p.InstrPos(in), "the sorted key list is only read", "the key list the collector returned in ascending (owner, index) order is reordered"+func() string {
+				if bad != nil {
+					return " at " + p.InstrPos(bad)
+				}
+				return ""
+			}()+" (slices alias their backing array): the register writes of the deterministic commit follow the new order")
+		})
+	}
+	r.Floor(R, "sorted key lists received from a collector", 1, n)
+}
+
+// pkgPathOfCallee: the package a (possibly instantiated generic) function was declared in.
+func pkgPathOfCallee(g *ssa.Function) string {
+	if g == nil {
+		return ""
+	}
+	if o := g.Origin(); o != nil {
+		g = o
+	}
+	if g.Pkg != nil {
+		return g.Pkg.Pkg.Path()
+	}
+	if g.Object() != nil && g.Object().Pkg() != nil {
+		return g.Object().Pkg().Path()
+	}
+	return ""
+}
